@@ -52,6 +52,19 @@ Section Gw.
         else Some ((value_of s n - value_of s p) / ofZ (n - p) * ofZ (date - p) + value_of s p)
     end.
 
+  (* ---- soil.go:692-730 ReadGroundWaterTimeSeries: the rows of the requested id, in file order, every one of
+     them (a row = (id, date, level); equal consecutive levels, duplicate dates and rows of other ids in between
+     make no difference); the result is the series [lookup]/[search] work on ---- *)
+  Fixpoint gw_read (rows : list (Z * Z * T)) (id : Z) : list (Z * T) :=
+    match rows with
+    | [] => []
+    | (i, d, v) :: r => if Z.eqb i id then (d, v) :: gw_read r id else gw_read r id
+    end.
+
+  (* init.go:13-14: the level before the first day; the error of an empty series is ignored (level 0) *)
+  Definition gw_init_series (series : list (Z * T)) (beginn : Z) : T :=
+    match level series (beginn - 2) with Some v => v | None => zero end.
+
   (* ---- input.go:73-75 ---- *)
   Definition gw_mean (grlo grhi : Z) : T := ofZ (grlo + grhi) / two.
   Definition gw_ampl (grlo grhi : Z) : T := ofZ (grlo - grhi) / two.
